@@ -52,7 +52,7 @@ def run(prop=None, tier='quick'):
         if prop and e['prop'] != prop:
             continue
         r = run_entry(e, tier)
-        r['ok'] = r['got'] == e['expect'] or r['got'] == 'not-applicable'
+        r['ok'] = r['got'] == e['expect'] or r['got'] == 'not-applicable' or (e['expect'] == 'no-alarm' and r['got'] in ('held', 'undecided'))
         res.append(r)
     return res
 
